@@ -114,7 +114,28 @@ func (w MIDIWriter) WriteTo(out io.Writer) (int64, error) {
 			return 0, err
 		}
 	}
-	return s.WriteTo(out)
+	// smf.WriteTo reports a failing header write only: errors of the track
+	// chunks are dropped there, so remember what the destination says
+	ew := &errWriter{w: out}
+	n, err := s.WriteTo(ew)
+	if err == nil {
+		err = ew.err
+	}
+	return n, err
+}
+
+// errWriter remembers the first error of the underlying writer.
+type errWriter struct {
+	w   io.Writer
+	err error
+}
+
+func (e *errWriter) Write(p []byte) (int, error) {
+	n, err := e.w.Write(p)
+	if err != nil && e.err == nil {
+		e.err = err
+	}
+	return n, err
 }
 
 func (w *MIDIWriter) Note(value float64, velocity uint8, key ...uint8) error {
